@@ -281,20 +281,32 @@ def norm(s):
     return " ".join(s.split())
 
 
-def evaluate(pid, cfg, gen, exe, cases, scratch):
-    """returns list of issues: dict(case, op_index, kind in {mismatch, predicate}, clause, impl, model)"""
+def evaluate(pid, cfg, gen, exe, cases, scratch, known=None):
+    """returns list of issues: dict(case, op_index, kind in {mismatch, predicate}, clause, impl, model).
+    A predicate failure that matches a listed known finding does not end its case (the operations
+    after it are still diffed and judged) unless props/<id>.json sets "stop_after_known": true;
+    any other issue ends the case.  A driver that aborted (non-zero exit, or answers missing) is a
+    broken correspondence, never a silent pass."""
     answers, diag = run_harness(exe, cases, per_case_timeout=cfg.get("case_timeout", 10.0))
     model, dstat = run_driver(pid, cases, answers, scratch)
     issues = []
     cmp_fn = getattr(gen, "compare", None)
+    go_on = known is not None and not cfg.get("stop_after_known", False)
     for ci, (c, a, m) in enumerate(zip(cases, answers, model)):
         ops = [l for l in c if l.strip() and not l.startswith(("case", "#", "="))]
         for oi, (impl, (mod, verdict)) in enumerate(zip(a, m)):
             if impl == "skipped":
                 continue
+            if mod == "driver-missing":
+                issues.append({"case": ci, "op": oi, "kind": "mismatch", "clause": "correspondence", "impl": impl, "model": "driver-missing (the Lean driver aborted: rc=%s %s)" % (dstat[0], dstat[1][-200:].replace("\n", " ")),
+                               "line": ops[oi], "diag": "driver aborted"})
+                break
             same = cmp_fn(ops[oi], impl, mod) if cmp_fn else norm(impl) == norm(mod)
             if verdict.startswith("FAIL"):
-                issues.append({"case": ci, "op": oi, "kind": "predicate", "clause": verdict[5:], "impl": impl, "model": mod, "line": ops[oi]})
+                iss = {"case": ci, "op": oi, "kind": "predicate", "clause": verdict[5:], "impl": impl, "model": mod, "line": ops[oi]}
+                issues.append(iss)
+                if go_on and match_known(pid, iss, c, known):
+                    continue
                 break
             if not same:
                 issues.append({"case": ci, "op": oi, "kind": "mismatch", "clause": "correspondence", "impl": impl, "model": mod, "line": ops[oi],
@@ -457,7 +469,7 @@ def main():
         log("cases: %d (corpus %d)" % (len(cases), corpus_n))
         issues, answers, model = ([], [], [])
         if lres["driver_ok"]:
-            issues, answers, model = evaluate(pid, cfg, gen, exe, cases, scratch)
+            issues, answers, model = evaluate(pid, cfg, gen, exe, cases, scratch, known)
         # ---- classify
         new_issues = []
         seen_known = {}
